@@ -3,6 +3,7 @@ package main
 // Symbolic execution of statements; loops cut at invariants; function-level verification.
 
 import (
+	"go/constant"
 	"fmt"
 	"go/ast"
 	"go/token"
@@ -420,7 +421,7 @@ func (u *Unit) join2(base *State, c string, a, b *State) *State {
 			out.heap[k] = av
 		} else {
 			t := sIte(c, av, bv)
-			if len(t) > 120 {
+			if strings.HasPrefix(t, "(ite ") {
 				n := u.fresh(k, u.heapSorts[k])
 				out.assume(sEq(n, t))
 				t = n
@@ -465,6 +466,16 @@ func (u *Unit) execIf(st *State, x *ast.IfStmt) *State {
 		if st == nil {
 			return nil
 		}
+	}
+	// a condition that is a compile-time constant (const debugging = false) selects its branch
+	if tv, ok := u.info.Types[x.Cond]; ok && tv.Value != nil && tv.Value.Kind() == constant.Bool {
+		if constant.BoolVal(tv.Value) {
+			return u.execBlock(st, x.Body.List)
+		}
+		if x.Else != nil {
+			return u.exec(st, x.Else)
+		}
+		return st
 	}
 	c := u.evalCond(st, x.Cond)
 	a := st.clone()
